@@ -12,8 +12,10 @@ from ..drivers import api, chunked, strategy
 from ..env import NULL
 from . import C01, C04
 
-PMC = "SPECIFICATION Spec\nCHECK_DEADLOCK FALSE\nCONSTANTS\n  NTasksMax = {n}\n  GatherByCompletion = {dev}\nINVARIANT GatheredByIndex\nINVARIANT EachOnce\n"
-PTRACE = "SPECIFICATION TraceSpec\nCHECK_DEADLOCK FALSE\nCONSTANTS\n  NTasksMax = 8\n  GatherByCompletion = FALSE\n"
+PMC = ("SPECIFICATION {spec}\nCHECK_DEADLOCK FALSE\nCONSTANTS\n  NTasksMax = {n}\n  MaxWorkers = {w}\n  MayRaise = {mr}\n  GatherByCompletion = {dev}\n"
+       "INVARIANT TypeOK\nINVARIANT GatheredByIndex\nINVARIANT EachOnce\nINVARIANT ReturnsOnlyIfNoneRaised\nINVARIANT RaisedIsFirstMet\n"
+       "INVARIANT WorkerBound\nINVARIANT FifoStart\nINVARIANT ReducedInIndexOrder\n{tail}")
+PTRACE = "SPECIFICATION TraceSpec\nCHECK_DEADLOCK FALSE\nCONSTANTS\n  NTasksMax = 8\n  MaxWorkers = 8\n  MayRaise = TRUE\n  GatherByCompletion = FALSE\n"
 OPS = C.OPS8
 
 
@@ -178,8 +180,9 @@ def run(tier):
         "GBCore machine, so all strategies agree; every completion order of 2..4 pool tasks (50 seeded orders for 5..8) forced "
         "in the real ThreadPoolExecutor and validated against GBParallel; real threaded / chunked GroupBy calls under forced "
         "orders; scaled replays at the real 1,000,000-row switch-over (999,999 / 1,000,000 / 1,000,002 / 2M / 3M rows)."))
-    ck.mc_bg("GBParallel", PMC.format(n=5 if tier == "quick" else 7, dev="FALSE"), "pool_all_orders", workers=4)
-    ck.mc_bg("GBParallel", PMC.format(n=3, dev="TRUE"), "neg_gather_by_completion", expect="GatheredByIndex", workers=1)
+    ck.mc_bg("GBParallel", PMC.format(spec="Spec", n=4 if tier == "quick" else 5, w=3 if tier == "quick" else 4, mr="TRUE", dev="FALSE", tail=""), "pool_all_orders", workers=4)
+    ck.mc_bg("GBParallel", PMC.format(spec="FairSpec", n=3, w=2, mr="TRUE", dev="FALSE", tail="PROPERTY Terminates\n"), "pool_terminates", workers=1)
+    ck.mc_bg("GBParallel", PMC.format(spec="Spec", n=3, w=3, mr="FALSE", dev="TRUE", tail=""), "neg_gather_by_completion", expect="GatheredByIndex", workers=1)
     ck.mc_bg("GBReduce", C04.MC.format(ng=2, vals="{1, 2}", rows=4, blocks=4, kernels=C04.ALLK, muc="TRUE", isf="TRUE"), "blocks_n4", workers=4)
     ck.mc_bg("GBReduce", C04.MC.format(ng=2, vals="{1, 2}", rows=3, blocks=2, kernels='{"min"}', muc="FALSE", isf="TRUE"), "neg_merge_without_counts", expect="BlocksAreSingle", workers=1)
     ck.mc_bg("GBCore", C01.MC.format(labels="{1, 2}", nkeys=1, vals="{1, 2}", rows=3, kernels=C01.ALLK, obv="FALSE"), "core_blowup_law", workers=4)
@@ -231,10 +234,30 @@ def run(tier):
             p = list(range(n))
             rng.shuffle(p)
             pool.append(dict(n=n, order=p))
+    # tasks that raise (every subset for 2..3 tasks under every order; drawn for more), the single-task inline path,
+    # and parallel_reduce (left fold of the gathered list, observed through list concatenation)
+    pool += [dict(n=1, order=[0]), dict(n=1, order=[0], raises=[0]), dict(n=1, order=[0], reduce=1)]
+    for n in (2, 3):
+        for p in itertools.permutations(range(n)):
+            for k in range(1, n + 1):
+                for rs in itertools.combinations(range(n), k):
+                    pool.append(dict(n=n, order=list(p), raises=list(rs)))
+            pool.append(dict(n=n, order=list(p), reduce=1))
+    for p in itertools.permutations(range(4)):
+        pool.append(dict(n=4, order=list(p), reduce=1))
+        pool.append(dict(n=4, order=list(p), raises=sorted(rng.sample(range(4), rng.randrange(1, 3)))))
+    for _ in range(60 if tier == "quick" else 600):
+        n = rng.randrange(5, 9)
+        p = list(range(n))
+        rng.shuffle(p)
+        pool.append(dict(n=n, order=p, raises=sorted(rng.sample(range(n), rng.randrange(1, 4)))) if rng.random() < 0.5 else dict(n=n, order=p, reduce=1))
     tpool = ck.drive(strategy.run_pool, pool, procs=2)     # in worker processes (each has its own scheduler pool); the parent stays thread-free
     ck.notes["schedules_forced"] = sum(t["forced"] for t in tpool)
     ck.notes["schedules_observed_as_forced"] = sum(int(t["order"] == t["want"]) for t in tpool)
-    rej = ck.validate("Trace_GBParallel", tpool, PTRACE, "pool", nontrivial=lambda t: t["order"] != sorted(t["order"]), key=lambda t: json.dumps(t["want"]))
+    ck.notes["pool_outcomes"] = {k: sum(1 for t in tpool if t["outcome"] == k) for k in ("returned", "raised", "crash")}
+    ck.notes["pool_reduce_calls"] = sum(t.get("reduce", 0) for t in tpool)
+    rej = ck.validate("Trace_GBParallel", tpool, PTRACE, "pool", nontrivial=lambda t: t["order"] != sorted(t["order"]) or bool(t["raises"]),
+                      key=lambda t: json.dumps([t["want"], t["raises"], t.get("reduce")]))
     ck.judge(rej, None, {})
     forced = []
     for _ in range(300 if tier == "quick" else 3000):
@@ -286,7 +309,7 @@ def run(tier):
 def replay(path):
     t = json.load(open(path))
     if "want" in t:
-        tr = strategy.run_pool(dict(n=t["n"], order=t["want"]))
+        tr = strategy.run_pool(dict(n=t["n"], order=t["want"], raises=t.get("raises"), reduce=t.get("reduce")))
         from .. import tlc
         acc, _, _ = tlc.validate("Trace_GBParallel", [tr], "C03_replay", PTRACE)
         print(json.dumps(tr))
